@@ -4,6 +4,7 @@
 From Coq Require Export List NArith ZArith Bool.
 From Coq Require Import Ascii String.
 Export ListNotations.
+Export String.StringSyntax.
 Open Scope N_scope.
 
 Notation chr := N (only parsing).
@@ -15,6 +16,8 @@ Fixpoint s2l (s : string) : str :=
   | EmptyString => []
   | String a r => N_of_ascii a :: s2l r
   end.
+
+Arguments s2l _%string_scope.
 
 Fixpoint str_eqb (a b : str) : bool :=
   match a, b with
@@ -44,7 +47,9 @@ Definition jbool (b : bool) : jv := JZ (if b then 1%Z else 0%Z).
 Definition jnat (n : nat) : jv := JZ (Z.of_nat n).
 Definition jN (n : N) : jv := JZ (Z.of_N n).
 Definition jtag (t : string) (args : list jv) : jv := JL (JS (s2l t) :: args).
+Arguments jtag _%string_scope _.
 Definition jerr (kind : string) : jv := jtag "err" [JS (s2l kind)].
+Arguments jerr _%string_scope.
 Definition junsupported : jv := jtag "unsupported" [].
 Definition jstrs (l : list str) : jv := JL (map JS l).
 
